@@ -1227,3 +1227,118 @@ Lemma repeated_key_rejected_example :
   /\ unmarshal_url [(s2b "foo", [s2b "bar"; s2b "bar"])] = None
   /\ unmarshal_url [(k_enc, [enc_json]); (k_clevel, [s2b "6"])] = Some (mkP enc_json [] (Some 6%Z) None [] false [] 0 0).
 Proof. vm_compute. repeat split; reflexivity. Qed.
+
+(* ---------- programs over several sets: the model has value semantics ---------- *)
+
+Lemma Z_opt_eqb_refl a : Z_opt_eqb a a = true.
+Proof. destruct a; cbn; [apply Z.eqb_refl | reflexivity]. Qed.
+Lemma params_eqb_refl a : params_eqb a a = true.
+Proof.
+  unfold params_eqb. now rewrite !bytes_eqb_refl, !Z_opt_eqb_refl, eqb_reflx, !Z.eqb_refl.
+Qed.
+Lemma env_eqb_refl e : env_eqb e e = true.
+Proof. apply list_beq_refl, params_eqb_refl. Qed.
+Lemma eff_eqb_refl e : eff_eqb e e = true.
+Proof. destruct e; cbn; [reflexivity | now rewrite eqb_reflx, !Z.eqb_refl]. Qed.
+
+Lemma others_same_none e : others_same_at None e e = true.
+Proof. induction e as [|x e IH]; cbn; [reflexivity | now rewrite params_eqb_refl]. Qed.
+Lemma others_same_refl i e : others_same_at (Some i) e e = true.
+Proof.
+  revert i; induction e as [|x e IH]; intros i; cbn; [reflexivity|].
+  destruct i; [apply others_same_none | now rewrite params_eqb_refl, IH].
+Qed.
+Lemma others_same_set i v e : others_same_at (Some i) e (env_set_nat i v e) = true.
+Proof.
+  revert i; induction e as [|x e IH]; intros i; [destruct i; reflexivity|].
+  destruct i; cbn; [apply others_same_none | now rewrite params_eqb_refl, IH].
+Qed.
+
+Lemma env_get_set_same i v e : (i < length e)%nat -> nth i (env_set_nat i v e) p0 = v.
+Proof.
+  revert i; induction e as [|x e IH]; intros i H; [cbn in H; lia|].
+  destruct i; cbn; [reflexivity | apply IH; cbn in H; lia].
+Qed.
+(* a step on slot i does not touch slot j <> i: no set can be seen through another *)
+Lemma env_get_set_other i j v e : i <> j -> nth j (env_set_nat i v e) p0 = nth j e p0.
+Proof.
+  revert i j; induction e as [|x e IH]; intros i j H; [destruct i; reflexivity|].
+  destruct i, j; cbn; try reflexivity; [congruence | apply IH; congruence].
+Qed.
+Lemma env_set_length i v e : length (env_set_nat i v e) = length e.
+Proof. revert i; induction e as [|x e IH]; intros i; [destruct i; reflexivity|]. destruct i; cbn; auto. Qed.
+
+Theorem prog_step_isolated env st j : j <> pstep_slot st ->
+  env_get j (fst (prog_step env st)) = env_get j env.
+Proof.
+  intros H. unfold env_get.
+  assert (Hn : N.to_nat (pstep_slot st) <> N.to_nat j) by lia.
+  destruct st; cbn [prog_step pstep_slot] in *; unfold read_into, env_set;
+    repeat match goal with |- context [match ?x with _ => _ end] => destruct x end; cbn [fst];
+    rewrite ?env_get_set_other by exact Hn; reflexivity.
+Qed.
+
+(* what the model observes, step by step *)
+Fixpoint prog_obs (env : list params) (steps : list pstep) : list pobs :=
+  match steps with
+  | [] => []
+  | st :: steps' =>
+      let r := prog_step env st in
+      mkPO (fst (snd r)) (snd (snd r)) (fst r) :: prog_obs (fst r) steps'
+  end.
+
+Lemma prog_step_length env st : length (fst (prog_step env st)) = length env.
+Proof.
+  destruct st; cbn [prog_step]; unfold read_into, env_set;
+    repeat match goal with |- context [match ?x with _ => _ end] => destruct x end; cbn [fst];
+    rewrite ?env_set_length; reflexivity.
+Qed.
+
+Lemma pstep_ok_model env st : (N.to_nat (pstep_slot st) < length env)%nat ->
+  pstep_ok env st (mkPO (fst (snd (prog_step env st))) (snd (snd (prog_step env st))) (fst (prog_step env st))) = true.
+Proof.
+  intros Hi. unfold pstep_ok. cbv zeta. cbn [po_env po_ok po_cfg]. unfold env_get.
+  assert (G : forall v, params_eqb (nth (N.to_nat (pstep_slot st)) (env_set_nat (N.to_nat (pstep_slot st)) v env) p0) v = true)
+    by (intros v; rewrite env_get_set_same by exact Hi; apply params_eqb_refl).
+  destruct st as [i p|i|i l|i vals|i vals|i b|i base]; cbn [prog_step pstep_slot] in *; unfold env_get.
+  - unfold env_set. cbn [fst snd]. apply andb_true_intro; split; [apply others_same_set | apply G].
+  - rewrite validate_spec. destruct (valid_set (nth (N.to_nat i) env p0)) eqn:V; cbn [fst snd].
+    + unfold env_set. apply andb_true_intro; split; [apply others_same_set | apply G].
+    + now rewrite others_same_refl, params_eqb_refl.
+  - unfold read_into, env_set. destruct (unmarshal_kv_into _ l); cbn [fst snd];
+      (apply andb_true_intro; split; [apply others_same_set | first [reflexivity | apply G]]).
+  - unfold read_into, env_set. destruct (unmarshal_url_into _ vals); cbn [fst snd];
+      (apply andb_true_intro; split; [apply others_same_set | first [reflexivity | apply G]]).
+  - unfold read_into, env_set. destruct (unmarshal_url_into _ vals); cbn [fst snd];
+      (apply andb_true_intro; split; [apply others_same_set | first [reflexivity | apply G]]).
+  - unfold read_into, env_set. destruct (unmarshal_bin_into _ b); cbn [fst snd];
+      (apply andb_true_intro; split; [apply others_same_set | first [reflexivity | apply G]]).
+  - cbn [fst snd]. rewrite others_same_refl, env_eqb_refl. cbn [andb].
+    set (a := nth (N.to_nat i) env p0).
+    destruct (p_level a) as [lv|] eqn:El; [|reflexivity]. destruct (p_bits a) as [w|] eqn:Ew; [|reflexivity].
+    destruct (named_comp (p_comp a)) eqn:Hn; [|reflexivity].
+    rewrite (config_function a lv w base); [apply eff_eqb_refl | now apply named_comp_iff | exact El | exact Ew].
+Qed.
+
+(* For EVERY program (any steps, any inputs to the readers, any slots in range) the model - a fold
+   over an environment of values - satisfies the predicate [prog_ok]: a step never changes another
+   slot, Validate is the function [validated_spec] of its receiver alone, the derived config of a
+   set naming type, level and window is [eff_spec] of those whatever happened before. *)
+Theorem prog_value_semantics steps : forall env,
+  Forall (fun st => (N.to_nat (pstep_slot st) < length env)%nat) steps ->
+  prog_ok env steps (prog_obs env steps) = true.
+Proof.
+  induction steps as [|st steps IH]; intros env H; [reflexivity|].
+  inversion H as [|? ? H1 H2]; subst. cbn [prog_obs prog_ok po_env].
+  rewrite pstep_ok_model by exact H1. cbn [andb]. apply IH.
+  eapply Forall_impl; [|exact H2]. intros st' Hs. now rewrite prog_step_length.
+Qed.
+
+(* and the judge's correspondence function accepts exactly the model's observations *)
+Lemma prog_corr_model steps : forall env, prog_corr env steps (prog_obs env steps) = true.
+Proof.
+  induction steps as [|st steps IH]; intros env; [reflexivity|].
+  cbn [prog_obs prog_corr po_ok po_cfg po_env]. rewrite eqb_reflx, env_eqb_refl, IH.
+  destruct (snd (snd (prog_step env st))) as [c|]; cbn; [|reflexivity].
+  unfold cconfig_eqb. now rewrite !eqb_reflx, !Z.eqb_refl.
+Qed.
